@@ -37,12 +37,12 @@ CHECKS = {
         "technique": TLA + "adversarial reader state machine explored by TLC, terminal states replayed into the code, recorded reads trace-validated",
     },
     "C01": {
-        "text": "Model checking with fault enumeration: the client is a TLA+ state machine (one action per external operation or critical section, tiles fetched and authenticated one by one with Tiles.tla) against an adversary corrupting 1-3 responses of any kind from network or cache; TLC checks ResultAuthentic, CacheAuthentic, ConfigAuthentic, HonestLive and the chain properties over log sizes 1-6/1-12, heights 1-2/1-3, cold/warm caches, restarts, growing server. Every complete behaviour is replayed into the real sumdb.Client against an independently built world with ground-truth observers on every ClientOps call (zero protocol drift on the unchanged tree); random multi-fault runs on trees up to 300/2000 records, heights 1-8, are trace-validated by SumdbMonitor. Further configuration families: a server that has moved on (head smaller than its log, partial tiles gone, damaged full tile served instead) and a cache left by a client that went further (complete tiles present, partial ones not).",
+        "text": "Model checking with fault enumeration: the client is a TLA+ state machine (one action per external operation or critical section, tiles fetched and authenticated one by one with Tiles.tla) against an adversary corrupting 1-3 responses of any kind from network or cache; TLC checks ResultAuthentic, CacheAuthentic, ConfigAuthentic, HonestLive and the chain properties over log sizes 1-6/1-12, heights 1-2/1-3, cold/warm caches, restarts, growing server. Every complete behaviour is replayed into the real sumdb.Client against an independently built world with ground-truth observers on every ClientOps call (zero protocol drift on the unchanged tree); random multi-fault runs on trees up to 300/2000 records, heights 1-8, are trace-validated by SumdbMonitor. Further configuration families: a server that has moved on (head smaller than its log, partial tiles gone, damaged full tile served instead) a cache left by a client that went further (complete tiles present, partial ones not), a record cache kept from an earlier run under a stored head that was lost or is older (InitLookups), other honest processes winning the compare-and-swap of the configuration three times in a row (EnvStore), and an honest run at the far end of a 2004-record log (tile numbers 999-1001).",
         "note": "Trusted: hashes as free terms, signatures as facts (SHA-256, Ed25519), the sumworld builder and its labels. Bound: number of corrupted responses per behaviour and log size in the exhaustive part.",
         "technique": TLA + "adversarial client state machine explored by TLC, behaviours replayed into the real client, recorded runs trace-validated by an observer specification",
     },
     "C13": {
-        "text": "Model checking: the same client specification with two timelines sharing a prefix of 0-3 records, a server that answers from either timeline and switches up to twice, one client across a restart or two clients sharing configuration and cache; TLC checks ConfigChain, MemChain, SecurityIsReal, SecurityHasBoth, CacheAuthentic. Every behaviour is replayed into the real client with observers for: stored head only moves to a signed extension, no two inconsistent heads stored, a presented fork fails the lookup and leaves the stored head alone, security reports carry both signed notes. Random forks at sizes up to 500 and heights up to 8 are trace-validated. Schedules of particular shapes are found exhaustively under a view that keeps one history per state and scenario flag and replayed through the gate scheduler: a split view meeting two goroutines of one client (ForkRace), a thread overtaken between install and flush (OvertakenFlush), a lost compare-and-swap between two clients (CasLost).",
+        "text": "Model checking: the same client specification with two timelines sharing a prefix of 0-3 records, a server that answers from either timeline and switches up to twice, one client across a restart or two clients sharing configuration and cache; TLC checks ConfigChain, MemChain, SecurityIsReal, SecurityHasBoth, CacheAuthentic. Every behaviour is replayed into the real client with observers for: stored head only moves to a signed extension, no two inconsistent heads stored, a presented fork fails the lookup and leaves the stored head alone, security reports carry both signed notes. Random forks at sizes up to 500 and heights up to 8 are trace-validated. Schedules of particular shapes are found exhaustively under a view that keeps one history per state and scenario flag and replayed through the gate scheduler: a split view meeting two goroutines of one client (ForkRace), a thread overtaken between install and flush (OvertakenFlush), a lost compare-and-swap between two clients (CasLost). Further families: lookup responses and cache files that carry a genuine head of the other view (otherview), and other honest writers of the shared configuration winning the swap three times in a row around a restart and a change of view (EnvStore); observer: heads accepted by successful lookups are consistent with each other and with the stored head.",
         "note": "Trusted: as C01. Fine-grained interleavings of clients writing the shared configuration are explored under C14's configurations; here multi-client histories are sequential per lookup.",
         "technique": TLA + "two-timeline client state machine explored by TLC, behaviours replayed into the real client, recorded fork runs trace-validated",
     },
